@@ -275,10 +275,51 @@ func checkCreatePool(P *core.Program, R *core.Report) {
 }
 
 // fromMsgElems: a slice literal whose elements are fields of elements ranged from msg.PoolAssets.
+// appendedElems: v is a slice assembled from nothing but literals, make(…) and append: the
+// elements it can hold (a loop that appends asset.Token for every asset yields that one value).
+func appendedElems(ff *core.FuncFacts, v ssa.Value, seen map[ssa.Value]bool) ([]ssa.Value, bool) {
+	v = ff.Fwd(v)
+	if seen[v] {
+		return nil, true
+	}
+	seen[v] = true
+	if els, ok := core.SliceLiteral(v); ok {
+		return els, true
+	}
+	switch x := v.(type) {
+	case *ssa.MakeSlice:
+		return nil, true
+	case *ssa.Const:
+		return nil, x.Value == nil
+	case *ssa.ChangeType:
+		return appendedElems(ff, x.X, seen)
+	case *ssa.Phi:
+		var out []ssa.Value
+		for _, e := range x.Edges {
+			els, ok := appendedElems(ff, e, seen)
+			if !ok {
+				return nil, false
+			}
+			out = append(out, els...)
+		}
+		return out, true
+	case *ssa.Call:
+		if b, ok := x.Common().Value.(*ssa.Builtin); ok && b.Name() == "append" && len(x.Common().Args) == 2 {
+			a, ok1 := appendedElems(ff, x.Common().Args[0], seen)
+			b2, ok2 := appendedElems(ff, x.Common().Args[1], seen)
+			return append(a, b2...), ok1 && ok2
+		}
+	}
+	return nil, false
+}
+
 func fromMsgElems(ff *core.FuncFacts, v ssa.Value, msg ssa.Value) bool {
 	els, ok := core.SliceLiteral(ff.Fwd(v))
 	if !ok {
-		return false
+		els, ok = appendedElems(ff, v, map[ssa.Value]bool{})
+		if !ok || len(els) == 0 {
+			return false
+		}
 	}
 	for _, e := range els {
 		good := false
@@ -650,6 +691,8 @@ func checkBookWriters(P *core.Program, R *core.Report) {
 				case *ssa.Call:
 					if core.CalleeName(s.Common()) == "append" {
 						fresh = true
+					} else if sc := s.Common().StaticCallee(); sc != nil && core.InModule(sc) && returnsFreshSlice(P, sc) {
+						fresh = true // a helper that hands out a copy it made (make + copy)
 					}
 				}
 				if fresh {
@@ -804,4 +847,45 @@ func checkExitPoolBody(P *core.Program, R *core.Report) {
 	} else {
 		R.Add(rule, "x/amm/types.Pool.ExitPool", "function", "-", false, "unresolved anchor")
 	}
+}
+
+// returnsFreshSlice: every value fn returns (first result) is a slice fn itself created with
+// make, a literal or append — never a field or parameter, which would share a backing array.
+func returnsFreshSlice(P *core.Program, fn *ssa.Function) bool {
+	if len(fn.Blocks) == 0 || fn.Signature.Results().Len() == 0 {
+		return false
+	}
+	ff := P.Facts(fn)
+	n := 0
+	for _, b := range fn.Blocks {
+		ret, ok := b.Instrs[len(b.Instrs)-1].(*ssa.Return)
+		if !ok || len(ret.Results) == 0 {
+			continue
+		}
+		n++
+		switch x := ff.Fwd(ret.Results[0]).(type) {
+		case *ssa.MakeSlice:
+		case *ssa.Slice:
+			if _, isAlloc := x.X.(*ssa.Alloc); !isAlloc {
+				return false
+			}
+		case *ssa.Call:
+			if core.CalleeName(x.Common()) != "append" {
+				return false
+			}
+			// append(nil/fresh, …) only
+			switch a := ff.Fwd(x.Common().Args[0]).(type) {
+			case *ssa.MakeSlice:
+			case *ssa.Const:
+				if a.Value != nil {
+					return false
+				}
+			default:
+				return false
+			}
+		default:
+			return false
+		}
+	}
+	return n > 0
 }
